@@ -216,6 +216,70 @@ theorem deadlock_free_false : ¬ deadlock_free := by
   obtain ⟨hr, hw, hnq, hnp⟩ := deadlock_witness
   exact hnp (h 1 1 deadState (by omega) (by omega) hr hw hnq)
 
+
+/-- `N = 2`, `Q = 1`: the deadlock in the form the property text describes it. Worker 1 settles task 1
+while task 0 is registered on it: it publishes and blocks in `enqueueContinuations` on the full queue
+**holding the promise mutex**; worker 0, running task 2, awaits the same promise and blocks on that
+mutex; the main thread waits for task 0. -/
+def deadTrace2 : List Event :=
+  [.add 2 0, .enq 2 0, .syw 2 0, .deq 0 0, .add 0 1, .enq 0 1, .deq 1 1,
+   .aw 0 1, .awl 0 1, .aws 0 1, .reg 0 1, .unl 0 1,
+   .add 1 2, .enq 1 2, .deq 0 2, .add 0 3, .enq 0 3,
+   .res 1 1 (.ok 0), .resl 1 1, .pub 1 1, .aw 0 1]
+
+def deadState2 : Sys := (runTrace 2 1 init deadTrace2).getD init
+
+theorem deadTrace2_runs : runTrace 2 1 init deadTrace2 = some deadState2 :=
+  some_getD_of_isSome (by decide)
+
+theorem deadlock_witness_lock :
+    Reachable 2 1 deadState2 ∧ NoWorkerSyncWait 2 deadState2 ∧ ¬ Quiescent deadState2 ∧ ¬ Progress 2 1 deadState2 ∧
+    deadState2.act 1 = .resEnq 1 [0] ∧ (deadState2.prom 1).locked = some 1 ∧ deadState2.act 0 = .awLock 2 1 := by
+  have h0 : deadState2.act 0 = .awLock 2 1 := by decide
+  have h1 : deadState2.act 1 = .resEnq 1 [0] := by decide
+  have h2 : deadState2.act 2 = .wait none 0 := by decide
+  have hq : deadState2.queue = [3] := by decide
+  have hs : (deadState2.prom 0).settled = none := by decide
+  have hl : (deadState2.prom 1).locked = some 1 := by decide
+  have hrest : ∀ a, 3 ≤ a → deadState2.act a = .idle := by
+    intro a ha
+    have := runTrace_act_other a deadTrace2 init deadState2 deadTrace2_runs (by
+      intro e he
+      simp only [deadTrace2, List.mem_cons, List.mem_nil_iff, or_false] at he
+      rcases he with rfl | rfl | rfl | rfl | rfl | rfl | rfl | rfl | rfl | rfl | rfl | rfl | rfl | rfl | rfl | rfl | rfl |
+        rfl | rfl | rfl | rfl <;> simp [Event.actor] <;> omega)
+    rw [this]; rfl
+  refine ⟨reachable_runTrace deadTrace2 init deadState2 Reachable.init deadTrace2_runs, ?_, ?_, ?_, h1, hl, h0⟩
+  · intro a ha ret p
+    have : a = 0 ∨ a = 1 := by omega
+    rcases this with rfl | rfl
+    · rw [h0]; simp
+    · rw [h1]; simp
+  · intro hqs; rw [hqs.1] at hq; cases hq
+  · apply stuck_of'
+    · intro a
+      by_cases ha0 : a = 0
+      · subst ha0; exact Or.inr (Or.inr (Or.inr (Or.inr (Or.inl ⟨_, _, h0, by rw [hl]; simp⟩))))
+      · by_cases ha1 : a = 1
+        · subst ha1; exact Or.inr (Or.inr (Or.inr (Or.inl ⟨_, _, _, h1⟩)))
+        · by_cases ha2 : a = 2
+          · subst ha2; exact Or.inr (Or.inr (Or.inl ⟨_, _, h2, hs⟩))
+          · exact Or.inl (hrest a (by omega))
+    · rw [hq]; simp
+    · intro a ha
+      have : a = 0 ∨ a = 1 := by omega
+      rcases this with rfl | rfl
+      · rw [h0]; simp
+      · rw [h1]; simp
+
+
+/-- **The ghost fields are never read.** Two states that agree on the physical fields (goroutine states,
+queue, promises, saved await targets) enable the same events and step to states that again agree on
+the physical fields — whatever their `loc`, `tasks`, `pubs`, `bodyRes` are. So the relation over the
+physical state is well defined and the ghost fields are pure bookkeeping for the proofs. -/
+theorem ghost_fields_irrelevant {N Q : Nat} {s t : Sys} (h : SamePhys s t) (e : Event) :
+    StepAgree (stepB N Q s e) (stepB N Q t e) := ghost_irrelevant h e
+
 /-! ### non-vacuity -/
 
 /-- the hypotheses of `deadlock_free_partial` are met by a non-trivial state: pool 1, queue 1, one
